@@ -9,7 +9,7 @@ from refs import effects
 from vk.ob import obligation, THOROUGH
 
 
-@obligation(funcs=["storage.db.DBStorage.add_event", "storage.db.DBStorage.process_tags"], timeout=(280, 1500),
+@obligation(funcs=["storage.db.DBStorage.add_event", "storage.db.DBStorage.process_tags"], timeout=(450, 1800),
             bounds="store {e0 (author A/B), bystander e1} then a kind-5 event with <=2 tags by selector from {e:e0, e:e1, e:unknown, "
                    "bare e, p:e0, e:E0 upper-case}; timestamps symbolic")
 def ob_sql_delete(p0: bool, t0: int, p1: bool, t1: int, p2: bool, t2: int, g: List[int]) -> str:
